@@ -26,9 +26,16 @@ LEVEL_TEXT = ('static analysis: (D1) every public estimator of cnvlib/descriptiv
               'with exact arithmetic in k: every scale estimator evaluates to 0 and every location estimator to k, and a library call whose '
               "precondition constant data violates (gaussian_kde needs a non-singular covariance) is a finding; the wrappers' contract (NaN "
               'stripped, no data -> NaN, one value -> the value / 0) is evaluated the same way; (D5b) on exactly symmetric data the biweight '
-              'midvariance is the documented 1.4826 * MAD. Does not decide numerical values on general data, agreement with published formulas, '
+              'midvariance is the documented 1.4826 * MAD. (D3d) savgol interpreted on constant signals of 2..40 values, weighted or not, five '
+              "parameter sets, with scipy's stated preconditions (polyorder < window_length <= len(signal)) as the contracts of the stubs: no "
+              'precondition is violated and one value per input comes back; (D6) every estimator interpreted through its decorator on 11 literal '
+              'vectors (majority tied, outlier, symmetric, constant, two and twelve values) with exact rational arithmetic equals an independent '
+              "transcription of its formula (biweight location / midvariance, MAD, IQR, Qn with the docstring's factors for n < 400, gapper, "
+              "weighted median / MAD / std). Does not decide numerical values on general data beyond those vectors, Qn's factor for n >= 400, "
               'range / finiteness of smoother outputs.')
-TECHNIQUE = "decorator-contract and tolerance lints; structured-dominance pad/unpad pairing; abstract interpretation with a translation/scale type domain and a uniform-vector domain"
+TECHNIQUE = ('decorator-contract and tolerance lints; structured-dominance pad/unpad pairing; abstract interpretation with a translation/scale '
+             'type domain and a uniform-vector domain; exact rational evaluation on literal vectors against independent formula transcriptions; '
+             "library-precondition contracts for scipy's savgol")
 
 LOCATION = {"biweight_location": "on_array", "modal_location": "on_array", "weighted_median": "on_weighted_array"}
 SCALE = {"biweight_midvariance": "on_array", "gapper_scale": "on_array", "interquartile_range": "on_array", "median_absolute_deviation": "on_array",
